@@ -14,6 +14,44 @@ CfgDb      == {DbCfg(ac, lim) : ac \in BOOLEAN, lim \in {0, 1, 2}}
 CfgDbNoLim == {DbCfg(ac, 0) : ac \in BOOLEAN}
 CfgAll     == CfgTree \cup CfgDb
 CfgFeed    == CfgTree1 \cup CfgDbNoLim
+(* Simulation: TLC picks uniformly among SUCCESSOR STATES, so with Next the actions with many argument choices
+   (hundreds of histories) would swamp Prune and the targeted writes.  SimNext draws the arguments with
+   RandomElement - one successor per action KIND - and biases them towards the interesting ones (a child that can be
+   added, a history that extends a leaf, a tombstone on the winner).  Bound variables over singleton sets make
+   sure a drawn value is used consistently. *)
+RE(S) == RandomElement(S)
+Pick(S, dflt) == IF S = {} THEN dflt ELSE RandomElement(S)
+NcSet == IF cfg.ac THEN BOOLEAN ELSE {FALSE}
+Above(t, p) == {x \in Rev : x.g > p.g /\ x \notin DOMAIN t}
+Cons(del) == IF Feed THEN {ch \in GoodChains : ChainCons(ch, del)} ELSE GoodChains
+SimTree(i) ==
+  \/ ~Feed /\ \E p \in {RE(DOMAIN tree[i] \cup {Nil})} : \E r \in {Pick(Above(tree[i], p), Mk(1, 1))} : TryAdd(i, r, p, RE(BOOLEAN))
+  \/ ~Feed /\ TryAdd(i, RE(Rev), RE(DOMAIN tree[i] \cup {Nil}), RE(BOOLEAN))
+  \/ ~Feed /\ ~Lean /\ TryAdd(i, RE(Rev), RE(Rev), RE(BOOLEAN))
+  \/ \E del \in {RE(BOOLEAN)} : \E ch \in {Pick(Cons(del), <<>>)} : ch # <<>> /\ PutHistT(i, ch, del)
+  \/ \E lf \in {Pick(Leaves(tree[i]), Nil)} : \E r \in {Pick(Above(tree[i], lf), Nil)} :
+        lf # Nil /\ r # Nil /\ PutHistT(i, <<r>> \o PathUp(tree[i], lf), RE(BOOLEAN))
+  \/ ~Feed /\ Prune(i, RE(Depths))
+FreshD(i, p) == Pick({d \in 1..NDig : Mk(PutParent(i, p).g + 1, d) \notin DOMAIN tree[i] /\ PutParent(i, p).g < MaxGen
+                                        /\ upar[Mk(PutParent(i, p).g + 1, d)] = Unk}, 1)
+SimDb(i) ==
+  \/ \E del \in {RE(BOOLEAN)} : \E ch \in {Pick(Cons(del), <<>>)} : ch # <<>> /\ PutHistD(i, ch, del, RE(NcSet))
+  \/ \E lf \in {Pick(Leaves(tree[i]), Nil)} : \E r \in {Pick(Above(tree[i], lf), Nil)} :
+        lf # Nil /\ r # Nil /\ PutHistD(i, <<r>> \o PathUp(tree[i], lf), RE(BOOLEAN), RE(NcSet))
+  \/ \E p \in {RE(Leaves(tree[i]) \cup {Nil})} : PutChild(i, p, FreshD(i, p), RE(BOOLEAN))
+  \/ cur[i] # Nil /\ PutChild(i, cur[i], FreshD(i, cur[i]), TRUE)
+  \/ ~Feed /\ \E p \in {RE(Rev \cup {Nil})} : PutChild(i, p, RE(1..NDig), RE(BOOLEAN))
+  \/ ~Feed /\ BadChains # {} /\ PutHistD(i, RE(BadChains), RE(BOOLEAN), RE(NcSet))
+Remaining == {fed[1][k] : k \in 1..Len(fed[1])} \ {fed[2][k] : k \in 1..Len(fed[2])}
+SimFeed2 == Feed /\ Remaining # {} /\ \E e \in {RE(Remaining)} :
+  IF cfg.lvl = "tree" THEN PutHistT(2, e.ch, e.del) ELSE PutHistD(2, e.ch, e.del, e.nc)
+SimNext ==
+  /\ Len(hist) < MaxSteps
+  /\ \/ \E i \in Reps : (cfg.lvl = "tree" /\ SimTree(i)) \/ (cfg.lvl = "db" /\ SimDb(i))
+     \/ SimFeed2
+  /\ Forced
+SimSpec == Init /\ [][SimNext]_vars
+
 (* behaviours for the binding.  ExportEnd (invariant): one behaviour per distinct end state.  ExportStep (action
    constraint, evaluated by TLC on every generated transition before de-duplication): with VIEW view1 every
    transition out of every distinct reachable state is exported once, prefixed by the representative history
